@@ -58,11 +58,23 @@ def cpu_seconds(scaling, cpus, base):
     raise ValueError(scaling)
 
 
-def tick_counts(x):
+def is_pow2(n):
+    return n >= 1 and (n & (n - 1)) == 0
+
+
+def dyadic(x):
+    return is_pow2(x.denominator) and x.denominator <= (1 << 40) and abs(x.numerator) < (1 << 50)
+
+
+def tick_counts(x, exact=False):
     """Admissible integer tick counts for a real duration of x ticks: floor(x), plus the
-    neighbour when x is within float rounding of an integer."""
+    neighbour when x is within float rounding of an integer. exact: every intermediate of
+    any float evaluation is representable (dyadic values, power-of-two tick rate), so there
+    is no rounding and only floor(x) is admissible."""
     n = math.floor(x)
     out = {n}
+    if exact and dyadic(x):
+        return [n]
     band = REL * max(x, 1)
     if x - n <= band and n >= 1:
         out.add(n - 1)
@@ -88,12 +100,13 @@ class Tick:
 def phase_specs(ops, cpus, tps):
     """ops: list of operators, each a list of segment dicts {cpu, scaling, mem, read}."""
     tps = fr(tps)
+    p2 = tps.denominator == 1 and is_pow2(int(tps))
     specs = []
     for oi, segs in enumerate(ops):
         for si, s in enumerate(segs):
-            io = fr(s.get("read", 0)) / DISK * tps
-            cs, _ = cpu_seconds(s.get("scaling", "const"), cpus, s.get("cpu", 0) or 0)
-            specs.append((oi, si, tick_counts(io), tick_counts(cs * tps)))
+            ios = fr(s.get("read", 0)) / DISK
+            cs, ex = cpu_seconds(s.get("scaling", "const"), cpus, s.get("cpu", 0) or 0)
+            specs.append((oi, si, tick_counts(ios * tps, p2 and dyadic(ios)), tick_counts(cs * tps, p2 and ex and dyadic(cs))))
     return specs
 
 
@@ -157,8 +170,11 @@ def cmp_over(mem, limit, lit=False):
 
 def suspend_ticks(ram, tps):
     """floor(allocated_ram/20 x tps), at least one. Returns admissible set."""
-    x = fr(ram) / DISK * fr(tps)
-    return sorted({max(1, n) for n in tick_counts(x)})
+    tps = fr(tps)
+    secs = fr(ram) / DISK
+    x = secs * tps
+    p2 = tps.denominator == 1 and is_pow2(int(tps))
+    return sorted({max(1, n) for n in tick_counts(x, p2 and dyadic(secs))})
 
 
 # ---------------------------------------------------------------------------
